@@ -630,6 +630,21 @@ func (x *SX) stmt(s ast.Stmt, st *sxState) []outcome {
 			if fl, ok := t.Node.(*ast.FuncLit); ok {
 				step.Lit = fl
 			}
+		} else {
+			// a declared private function of this package started directly (`go worker(&wg, k, x, f)`): its declaration is the spawned body
+			var f *types.Func
+			if tf, ok := x.eval(v.Call.Fun, st).(TFunc); ok {
+				f = tf.Fun
+			} else {
+				f = c.callee(v.Call)
+			}
+			if f != nil && f.Pkg() == c.Types && !f.Exported() {
+				if sig, _ := f.Type().(*types.Signature); sig != nil && sig.Recv() == nil {
+					if fd := c.DeclOf(f); fd != nil && fd.Body != nil {
+						step.Lit = &ast.FuncLit{Type: fd.Type, Body: fd.Body}
+					}
+				}
+			}
 		}
 		st.bump()
 		st.steps = append(st.steps, step)
